@@ -17,7 +17,7 @@ def main():
     results = json.load(open(path)) if os.path.exists(path) else {}
     for name in sorted(os.listdir(SEEDED)):
         d = os.path.join(SEEDED, name)
-        if not os.path.isdir(d) or (want and not any(name.startswith(w) for w in want)):
+        if not os.path.isdir(d) or name.startswith("_") or (want and not any(name.startswith(w) for w in want)):
             continue
         meta = json.load(open(os.path.join(d, "meta.json")))
         if meta.get("expect") == "silent":
